@@ -120,11 +120,55 @@ def cmp_lines(impl_da, sizes, model_lines, td=TD):
 
 
 # ------------------------------------------------------------------------------------------
-def check_envelope(ctx):
+# plain-Python statements of what each tool is documented to do (property predicates; exact rationals)
+# ------------------------------------------------------------------------------------------
+def F(x):
+    return None if (isinstance(x, float) and np.isnan(x)) else Fraction(x)
+
+
+def oracle_fill(xs, ys, method, mn):
+    """the named method's prescription: linear = interpolate between the nearest given points, extend the first / last segment, clip to
+    [0,1]; step = last given value, 0 before the first; forward = last given value, first given value before it; backward = mirror"""
+    n = len(xs)
+    idx = [i for i, v in enumerate(ys) if v is not None]
+    if len(idx) < mn:
+        return [None] * n
+    out = list(ys)
+    for i in range(n):
+        if ys[i] is not None:
+            continue
+        left = [j for j in idx if j < i]
+        right = [j for j in idx if j > i]
+        if method == "linear":
+            if left and right:
+                a, b = left[-1], right[0]
+            elif left:
+                a, b = left[-2], left[-1]
+            else:
+                a, b = right[0], right[1]
+            out[i] = ys[a] + (ys[b] - ys[a]) * (xs[i] - xs[a]) / (xs[b] - xs[a])
+        elif method == "step":
+            out[i] = ys[left[-1]] if left else Fraction(0)
+        elif method == "forward":
+            out[i] = ys[left[-1]] if left else ys[right[0]]
+        elif method == "backward":
+            out[i] = ys[right[0]] if right else ys[left[-1]]
+    if method == "linear":
+        out = [min(max(v, Fraction(0)), Fraction(1)) for v in out]
+    return out
+
+
+def same_line(got, want, tol=1e-9):
+    return len(got) == len(want) and all((np.isnan(g) if w is None else (not np.isnan(g) and abs(g - float(w)) <= tol)) for g, w in zip(got, want))
+
+
+# ------------------------------------------------------------------------------------------
+def check_envelope(ctx, da=None, sizes=None):
     rng = ctx.rng
-    da, sizes, ths = gen_array(rng, lo=-2 if rng.random() < 0.2 else 0, hi=10 if rng.random() < 0.2 else 8)
-    if rng.random() < 0.3:      # coordinates stored in non-increasing order: the function sorts
-        da = contiguous(da.isel({TD: list(rng.sample(range(da.sizes[TD]), da.sizes[TD]))}))
+    if da is None:
+        da, sizes, ths = gen_array(rng, lo=-2 if rng.random() < 0.2 else 0, hi=10 if rng.random() < 0.2 else 8)
+        if rng.random() < 0.3:      # coordinates stored in non-increasing order: the function sorts
+            da = contiguous(da.isel({TD: list(rng.sample(range(da.sizes[TD]), da.sizes[TD]))}))
     desc = {"fn": "cdf_envelope", "cdf": gens.da_repr(da)}
     impl = core.call_impl(C().cdf_envelope, da, TD)
     dims, labs, lines = lines_of(da, sizes)
@@ -132,23 +176,19 @@ def check_envelope(ctx):
     ctx.case(desc)
     ctx.count("envelope")
     if impl[0] != "ok":
-        ctx.tie_fail("cdf_envelope raises", desc, impl[1], "value")
+        ctx.violation("cdf_envelope raises", desc, "a value", impl[1])
         return
     env = impl[1]
-    for k, name in enumerate(["original", "upper", "lower"]):
-        bad = cmp_lines(env.sel(cdf_type=name), sizes, [t[k] for t in m])
-        if bad:
-            ctx.tie_fail(f"cdf_envelope '{name}' differs from the model", {**desc, "case": bad[0]}, bad[1], bad[2])
-            return
-    # property predicates on the implementation: bracket, monotone, fixpoint, NaN kept
+    # property predicates on the implementation: NaN kept, bracket, monotone, minimal (= running max / reverse running min), fixpoint
+    _, _, orig = lines_of(env.sel(cdf_type="original"), sizes)
     _, _, up = lines_of(env.sel(cdf_type="upper"), sizes)
     _, _, low = lines_of(env.sel(cdf_type="lower"), sizes)
-    for lb, o, u, l in zip(labs, lines, up, low):
+    for lb, o, o2, u, l in zip(labs, lines, orig, up, low):
         nn = [i for i, v in enumerate(o) if not np.isnan(v)]
-        ok = all(np.isnan(u[i]) and np.isnan(l[i]) for i in range(len(o)) if i not in nn)
-        ok = ok and all(l[i] - 1e-12 <= o[i] <= u[i] + 1e-12 for i in nn)
+        ok = same_line(o2, [F(v) for v in o])
+        ok = ok and all(np.isnan(u[i]) and np.isnan(l[i]) for i in range(len(o)) if i not in nn)
+        ok = ok and all(not np.isnan(u[i]) and not np.isnan(l[i]) and l[i] - 1e-12 <= o[i] <= u[i] + 1e-12 for i in nn)
         ok = ok and all(u[i] <= u[j] + 1e-12 and l[i] <= l[j] + 1e-12 for i, j in zip(nn, nn[1:]))
-        # minimality: the running max / reverse running min themselves
         run = -np.inf
         for i in nn:
             run = max(run, o[i])
@@ -160,47 +200,58 @@ def check_envelope(ctx):
         if all(o[i] <= o[j] for i, j in zip(nn, nn[1:])):
             ok = ok and all(abs(u[i] - o[i]) <= 1e-12 and abs(l[i] - o[i]) <= 1e-12 for i in nn)
         if not ok:
-            ctx.violation("cdf_envelope does not bracket minimally / is not monotone / changes a non-decreasing CDF", {**desc, "case": dict(zip(dims, lb))},
-                          "lower<=original<=upper, running max / reverse running min", {"original": o, "upper": u, "lower": l})
-            return
+            ctx.violation("cdf_envelope does not bracket minimally / is not monotone / changes a non-decreasing CDF / moves a NaN", {**desc, "case": dict(zip(dims, lb))},
+                          "lower<=original<=upper, upper = running max, lower = reverse running min, NaN kept", {"original": o2, "upper": u, "lower": l})
+            break
+    for k, name in enumerate(["original", "upper", "lower"]):
+        bad = cmp_lines(env.sel(cdf_type=name), sizes, [t[k] for t in m])
+        if bad:
+            ctx.tie_fail(f"cdf_envelope '{name}' differs from the model", {**desc, "case": bad[0]}, bad[1], bad[2])
+            break
 
 
-def check_fill(ctx):
+def check_fill(ctx, da=None, sizes=None, ths=None, method=None, mn=None):
     rng = ctx.rng
-    da, sizes, ths = gen_array(rng, nan_mode=rng.choice(["scatter", "scatter", "none", "line"]))
-    method = rng.choice(FILLS) if rng.random() < 0.95 else "cubic"
-    mn = rng.choice([0, 1, 1, 2, 2, 3, 4])
-    if rng.random() < 0.08:
-        da = da.copy()
-        da.values[tuple(rng.randrange(s) for s in da.shape)] = rng.choice([-0.125, 1.25])
+    if da is None:
+        da, sizes, ths = gen_array(rng, nan_mode=rng.choice(["scatter", "scatter", "none", "line"]))
+        method = rng.choice(FILLS) if rng.random() < 0.95 else "cubic"
+        mn = rng.choice([0, 1, 1, 2, 2, 3, 4])
+        if rng.random() < 0.08:
+            da = da.copy()
+            da.values[tuple(rng.randrange(s) for s in da.shape)] = rng.choice([-0.125, 1.25])
     desc = {"fn": "fill_cdf", "cdf": gens.da_repr(da), "method": method, "min_nonnan": mn}
     impl = core.call_impl(C().fill_cdf, da, TD, method, mn)
     dims, labs, lines = lines_of(da, sizes)
     m = ctx.model("c17_fill", enc_list([enc_nums([t / 2.0 for t in ths]), enc_lines(lines), enc_str(method), str(mn)]))
     ctx.case(desc, nontrivial=impl[0] == "ok")
     ctx.count("fill:" + method)
-    if core.is_err(m) or impl[0] == "err":
-        if not (core.is_err(m) and impl[0] == "err" and impl[1] == m):
-            ctx.tie_fail("fill_cdf raises/returns differently from the model", desc, str(impl[1])[:200], str(m)[:200])
+    should_raise = (method not in FILLS) or any((not np.isnan(v)) and not (0 <= v <= 1) for l in lines for v in l) or \
+        (mn < 2 if method == "linear" else mn < 1)
+    if impl[0] == "err" or should_raise:
+        if not (impl[0] == "err" and should_raise and impl[1] == "err:ValueError"):
+            ctx.violation("fill_cdf raises / does not raise ValueError exactly for: unknown method, ordinate outside [0,1], min_nonnan below the method's minimum",
+                          desc, "err:ValueError" if should_raise else "a value", impl[1] if impl[0] == "err" else "a value")
         else:
             ctx.count("fill:error_path")
+        if not (core.is_err(m) and impl[0] == "err" and impl[1] == m):
+            ctx.tie_fail("fill_cdf raises/returns differently from the model", desc, str(impl[1])[:200], str(m)[:200])
+        return
+    _, _, got = lines_of(impl[1], sizes)
+    xs = [Fraction(t, 2) for t in ths]
+    for lb, o, g in zip(labs, lines, got):
+        want = oracle_fill(xs, [F(v) for v in o], method, mn)
+        if not same_line(g, want):
+            cnt = sum(1 for v in o if not np.isnan(v))
+            what = ("a line with fewer than min_nonnan points is not blanked" if cnt < mn else
+                    f"fill_cdf('{method}') does not keep the given ordinates and fill the others as the method prescribes within [0,1]")
+            ctx.violation(what, {**desc, "case": dict(zip(dims, lb))}, [None if w is None else str(w) for w in want], g)
+            break
+    if core.is_err(m):
+        ctx.tie_fail("fill_cdf returns a value where the model raises", desc, "value", m)
         return
     bad = cmp_lines(impl[1], sizes, m)
     if bad:
         ctx.tie_fail("fill_cdf differs from the model", {**desc, "case": bad[0]}, bad[1], bad[2])
-        return
-    _, _, got = lines_of(impl[1], sizes)
-    for lb, o, g in zip(labs, lines, got):
-        cnt = sum(1 for v in o if not np.isnan(v))
-        if cnt < mn:
-            ok = all(np.isnan(v) for v in g)
-            what = "a line with fewer than min_nonnan points is not blanked"
-        else:
-            ok = all(not np.isnan(v) and -1e-12 <= v <= 1 + 1e-12 for v in g) and all(abs(a - b) <= 1e-12 for a, b in zip(o, g) if not np.isnan(a))
-            what = "fill_cdf changes a given ordinate, leaves a NaN or leaves [0,1]"
-        if not ok:
-            ctx.violation(what, {**desc, "case": dict(zip(dims, lb))}, "see property", {"in": o, "out": g})
-            return
 
 
 def check_add_thresholds(ctx):
@@ -219,72 +270,108 @@ def check_add_thresholds(ctx):
     m = ctx.model("c17_add_thresholds", enc_list([enc_nums([t / 2.0 for t in ths]), enc_lines(lines), enc_nums(new), enc_str(method), str(mn)]))
     ctx.case(desc, nontrivial=impl[0] == "ok")
     ctx.count("add_thresholds:" + method)
-    if core.is_err(m) or impl[0] == "err":
-        if not (core.is_err(m) and impl[0] == "err" and impl[1] == m):
-            ctx.tie_fail("add_thresholds raises/returns differently from the model", desc, str(impl[1])[:200], str(m)[:200])
+    should_raise = method != "none" and (mn < 2 and method == "linear")
+    if impl[0] == "err":
+        if not should_raise:
+            ctx.violation("add_thresholds raises on a valid input", desc, "a value", impl[1])
+        if not (core.is_err(m) and impl[1] == m):
+            ctx.tie_fail("add_thresholds raises where the model returns", desc, str(impl[1])[:200], str(m)[:200])
+        return
+    # predicate: thresholds = sorted union; given ordinates stay at their thresholds; new ones are filled as the method prescribes
+    grid_want = sorted(set([t / 2.0 for t in ths] + [x for x in new if not np.isnan(x)]))
+    grid_got = [float(x) for x in impl[1][TD].values]
+    if grid_got != grid_want:
+        ctx.violation("add_thresholds: thresholds are not the sorted union of old and new (NaN dropped)", desc, grid_want, grid_got)
+    else:
+        _, _, got = lines_of(impl[1], sizes)
+        xs = [Fraction(g) for g in grid_want]
+        for lb, o, g in zip(labs, lines, got):
+            given = {t / 2.0: F(v) for t, v in zip(ths, o)}
+            re = [given.get(x) for x in grid_want]
+            want = re if method == "none" else oracle_fill(xs, re, method, mn)
+            if not same_line(g, want):
+                ctx.violation(f"add_thresholds('{method}') does not keep the given ordinates / fill the new thresholds as prescribed",
+                              {**desc, "case": dict(zip(dims, lb))}, [None if w is None else str(w) for w in want], g)
+                break
+    if core.is_err(m):
+        ctx.tie_fail("add_thresholds returns a value where the model raises", desc, "value", m)
         return
     grid = [float(x) for x in core.dec_nums(m[0])]
-    if [float(x) for x in impl[1][TD].values] != grid:
-        ctx.tie_fail("add_thresholds grid differs", desc, impl[1][TD].values.tolist(), grid)
+    if grid_got != grid:
+        ctx.tie_fail("add_thresholds grid differs", desc, grid_got, grid)
         return
     bad = cmp_lines(impl[1], sizes, m[1])
     if bad:
         ctx.tie_fail("add_thresholds differs from the model", {**desc, "case": bad[0]}, bad[1], bad[2])
-        return
-    # given ordinates are kept at their thresholds
-    if method != "none":
-        _, _, got = lines_of(impl[1], sizes)
-        for lb, o, g in zip(labs, lines, got):
-            if sum(1 for v in o if not np.isnan(v)) >= mn:
-                for t, v in zip(ths, o):
-                    if not np.isnan(v) and abs(g[grid.index(t / 2.0)] - v) > 1e-12:
-                        ctx.violation("add_thresholds changes a given ordinate", {**desc, "case": dict(zip(dims, lb))}, v, g[grid.index(t / 2.0)])
-                        return
 
 
-def check_decreasing(ctx):
+def check_decreasing(ctx, da=None, sizes=None, ths=None, tol=None):
     rng = ctx.rng
-    da, sizes, ths = gen_array(rng, nan_mode=rng.choice(["none", "none", "line", "scatter"] if rng.random() < 0.3 else ["none", "line"]))
+    if da is None:
+        da, sizes, ths = gen_array(rng, nan_mode=rng.choice(["none", "none", "line", "scatter"] if rng.random() < 0.3 else ["none", "line"]))
     dims, labs, lines = lines_of(da, sizes)
-    decs = [sum(max(0.0, a - b) for a, b in zip(l, l[1:]) if not (np.isnan(a) or np.isnan(b))) for l in lines]
-    r = rng.random()
-    tol = 0.0 if r < 0.3 else (rng.choice(decs) if r < 0.7 else rng.randint(0, 8) / 8.0)
-    if rng.random() < 0.05:
-        tol = -0.125
+    decs = [sum((Fraction(a) - Fraction(b) for a, b in zip(l, l[1:]) if not (np.isnan(a) or np.isnan(b)) and a > b), Fraction(0)) for l in lines]
+    if tol is None:
+        r = rng.random()
+        tol = 0.0 if r < 0.3 else (float(rng.choice(decs)) if r < 0.7 else rng.randint(0, 8) / 8.0)
+        if rng.random() < 0.05:
+            tol = -0.125
     desc = {"fn": "decreasing_cdfs", "cdf": gens.da_repr(da), "tolerance": tol}
     impl = core.call_impl(C().decreasing_cdfs, da, TD, tol)
     m = ctx.model("c17_decreasing", enc_list([enc_nums([t / 2.0 for t in ths]), enc_lines(lines), enc_num(tol)]))
     ctx.case(desc, nontrivial=impl[0] == "ok")
     ctx.count("decreasing")
-    if core.is_err(m) or impl[0] == "err":
+    mixed = any(any(np.isnan(v) for v in l) and not all(np.isnan(v) for v in l) for l in lines)
+    should_raise = tol < 0 or mixed
+    if impl[0] == "err" or should_raise:
+        if not (impl[0] == "err" and should_raise and impl[1] == "err:ValueError"):
+            ctx.violation("decreasing_cdfs raises / does not raise ValueError exactly for a negative tolerance or a partly-NaN CDF", desc,
+                          "err:ValueError" if should_raise else "a value", impl[1] if impl[0] == "err" else "a value")
         if not (core.is_err(m) and impl[0] == "err" and impl[1] == m):
             ctx.tie_fail("decreasing_cdfs raises/returns differently from the model", desc, str(impl[1])[:200], str(m)[:200])
         return
-    for lb, l, d, mb in zip(labs, lines, decs, m):
+    flags = []
+    for lb, d in zip(labs, decs):
         sel = dict(zip(dims, lb))
         g = bool(impl[1].sel(sel).values) if sel else bool(impl[1].values)
+        flags.append(g)
+        if g != (d > Fraction(tol)):
+            ctx.violation("decreasing_cdfs does not flag exactly the lines whose total decrease exceeds the tolerance", {**desc, "case": sel, "total_decrease": str(d)},
+                          d > Fraction(tol), g)
+            break
+    if core.is_err(m):
+        ctx.tie_fail("decreasing_cdfs returns a value where the model raises", desc, "value", m)
+        return
+    for lb, g, mb in zip(labs, flags, m):
         if g != (mb == "true"):
-            ctx.tie_fail("decreasing_cdfs differs from the model", {**desc, "case": sel}, g, mb)
-            return
-        if g != (d > tol):
-            ctx.violation("decreasing_cdfs does not flag exactly the lines whose total decrease exceeds the tolerance", {**desc, "case": sel, "total_decrease": d}, d > tol, g)
-            return
+            ctx.tie_fail("decreasing_cdfs differs from the model", {**desc, "case": dict(zip(dims, lb))}, g, mb)
+            break
 
 
 def check_small_tools(ctx):
     rng = ctx.rng
     c = C()
-    # propagate_nan
+    # ---- propagate_nan
     da, sizes, ths = gen_array(rng, nan_mode=rng.choice(["scatter", "none", "line"]))
     dims, labs, lines = lines_of(da, sizes)
     impl = core.call_impl(c.propagate_nan, da, TD)
     m = ctx.model("c17_propagate", enc_lines(lines))
-    ctx.case({"fn": "propagate_nan", "cdf": gens.da_repr(da)})
+    desc = {"fn": "propagate_nan", "cdf": gens.da_repr(da)}
+    ctx.case(desc)
     ctx.count("propagate_nan")
-    bad = cmp_lines(impl[1], sizes, m) if impl[0] == "ok" else ({}, impl[1], "value")
-    if bad:
-        ctx.tie_fail("propagate_nan differs from the model", {"cdf": gens.da_repr(da), "case": bad[0]}, bad[1], bad[2])
-    # observed_cdf
+    if impl[0] != "ok":
+        ctx.violation("propagate_nan raises", desc, "a value", impl[1])
+    else:
+        _, _, got = lines_of(impl[1], sizes)
+        for lb, o, g in zip(labs, lines, got):
+            want = [None] * len(o) if any(np.isnan(v) for v in o) else [F(v) for v in o]
+            if not same_line(g, want):
+                ctx.violation("propagate_nan: a line with a NaN is not entirely NaN, or a NaN-free line is changed", {**desc, "case": dict(zip(dims, lb))}, want, g)
+                break
+        bad = cmp_lines(impl[1], sizes, m)
+        if bad:
+            ctx.tie_fail("propagate_nan differs from the model", {**desc, "case": bad[0]}, bad[1], bad[2])
+    # ---- observed_cdf
     n = rng.randint(1, 4)
     sizes = {"a": n}
     obs = xr.DataArray([NAN if rng.random() < 0.15 else rng.randint(0, 16) / 4.0 for _ in range(n)], dims=["a"], coords={"a": list(range(n))})
@@ -295,23 +382,39 @@ def check_small_tools(ctx):
     impl = core.call_impl(c.observed_cdf, obs, TD, threshold_values=tv, include_obs_in_thresholds=inc, precision=prec)
     ctx.case(desc, nontrivial=impl[0] == "ok")
     ctx.count("observed_cdf")
-    ro = core.dec_nums(ctx.model("c17_round", enc_list([enc_nums(obs.values), enc_num(prec), enc_bool(True)])))
-    grid = sorted(set([float(x) for x in ro if inc and not isinstance(x, float)] + [float(x) for x in (tv or [])]))
-    if not grid or bool(np.isnan(obs.values).all()) and (tv is None):
+
+    def rnd(x):      # nearest multiple of prec, ties to even (numpy)
+        if prec == 0 or np.isnan(x):
+            return x
+        q = Fraction(x) / Fraction(prec)
+        fl = q.numerator // q.denominator
+        r = q - fl
+        k = fl if r < Fraction(1, 2) else (fl + 1 if r > Fraction(1, 2) else (fl if fl % 2 == 0 else fl + 1))
+        return float(k * Fraction(prec))
+    ro = [rnd(float(x)) for x in obs.values]
+    grid = sorted(set([x for x in ro if inc and not np.isnan(x)] + [float(x) for x in (tv or [])]))
+    all_nan = bool(np.isnan(obs.values).all())
+    if all_nan and tv is None:
         if impl[0] != "err":
-            ctx.tie_fail("observed_cdf should raise without any threshold", desc, "value", "err:ValueError")
+            ctx.violation("observed_cdf must raise when there is neither a non-NaN observation nor a threshold value", desc, "err:ValueError", "a value")
     elif impl[0] != "ok":
-        if not bool(np.isnan(obs.values).all()):
-            ctx.tie_fail("observed_cdf raises", desc, impl[1], "value")
+        if grid:
+            ctx.violation("observed_cdf raises on a valid input", desc, "a value", impl[1])
     else:
-        m = ctx.model("c17_observed_cdf", enc_list([enc_list([enc_num(x) for x in ro]), enc_nums(grid)]))
         if [float(x) for x in impl[1][TD].values] != grid:
-            ctx.tie_fail("observed_cdf thresholds differ", desc, impl[1][TD].values.tolist(), grid)
+            ctx.violation("observed_cdf: thresholds are not the sorted union of (rounded) observations and supplied values", desc, grid, impl[1][TD].values.tolist())
         else:
+            _, labs, got = lines_of(impl[1], sizes)
+            for lb, o, g in zip(labs, ro, got):
+                want = [None] * len(grid) if np.isnan(o) else [Fraction(1 if t >= o else 0) for t in grid]
+                if not same_line(g, want):
+                    ctx.violation("observed_cdf is not 1{threshold >= observation} (NaN for a NaN observation)", {**desc, "case": {"a": lb[0]}}, [None if w is None else int(w) for w in want], g)
+                    break
+            m = ctx.model("c17_observed_cdf", enc_list([enc_nums(ro), enc_nums(grid)]))
             bad = cmp_lines(impl[1], sizes, m)
             if bad:
                 ctx.tie_fail("observed_cdf differs from the model", {**desc, "case": bad[0]}, bad[1], bad[2])
-    # round_values
+    # ---- round_values
     p = rng.choice([0, 0.5, 0.25, 2, 1, 0.125, -1])
     vals = [NAN if rng.random() < 0.1 else rng.randint(-64, 64) / 16.0 for _ in range(rng.randint(1, 6))]
     impl = core.call_impl(c.round_values, xr.DataArray(vals, dims=["x"]), p)
@@ -319,21 +422,31 @@ def check_small_tools(ctx):
     desc = {"fn": "round_values", "values": vals, "rounding_precision": p}
     ctx.case(desc, nontrivial=impl[0] == "ok")
     ctx.count("round_values")
+    if impl[0] == "err" or p < 0:
+        if not (impl[0] == "err" and p < 0):
+            ctx.violation("round_values raises / does not raise exactly for a negative precision", desc, "err" if p < 0 else "value", impl[0])
+    else:
+        for v, g in zip(vals, impl[1].values):
+            if np.isnan(v):
+                good = np.isnan(g)
+            elif p == 0:
+                good = g == v
+            else:
+                good = abs(g - v) <= p / 2 + 1e-12 and abs(g / p - round(g / p)) <= 1e-9
+            if not good:
+                ctx.violation("round_values result is not the nearest multiple of the precision (0 = unchanged)", desc, "multiple of p within p/2", float(g))
+                break
     if core.is_err(m) or impl[0] == "err":
         if not (core.is_err(m) and impl[0] == "err" and impl[1] == m):
             ctx.tie_fail("round_values raises/returns differently from the model", desc, str(impl[1])[:100], str(m)[:100])
     elif not core.close_list([float(v) for v in impl[1].values], core.dec_nums(m)):
         ctx.tie_fail("round_values differs from the model", desc, impl[1].values.tolist(), m)
-    elif p > 0:
-        for v, g in zip(vals, impl[1].values):
-            if not np.isnan(v) and not (abs(g - v) <= p / 2 + 1e-12 and abs(g / p - round(g / p)) <= 1e-9):
-                ctx.violation("round_values result is not the nearest multiple of the precision", desc, "multiple of p within p/2", float(g))
 
 
-def crps_of(fc, obs, sizes, add, ffm, im):
+def crps_of(fc, obs, sizes, add, ffm, im, extra=()):
     import scores.probability as P
     kw = dict(threshold_dim=TD, additional_thresholds=add, fcst_fill_method=ffm, integration_method=im)
-    dims = sorted(sizes)
+    dims = sorted(sizes) + list(extra)
     if dims:
         kw["preserve_dims"] = dims
     return core.call_impl(P.crps_cdf, fc, obs, **kw)
@@ -358,9 +471,10 @@ def check_adjust(ctx):
     obs = xr.DataArray(np.array([ov() for _ in range(on)], dtype=float).reshape([odims[d] for d in od]), dims=od,
                        coords={d: rng.sample(range(odims[d]), odims[d]) for d in od})
     dims, labs, lines = lines_of(da, sizes)
-    decs = [sum(max(0.0, a - b) for a, b in zip(l, l[1:]) if not (np.isnan(a) or np.isnan(b))) for l in lines]
+    plines = [[NAN] * len(l) if any(np.isnan(v) for v in l) else l for l in lines]
+    decs = [sum((Fraction(a) - Fraction(b) for a, b in zip(l, l[1:]) if not (np.isnan(a) or np.isnan(b)) and a > b), Fraction(0)) for l in plines]
     r = rng.random()
-    tol = 0.0 if r < 0.5 else (rng.choice(decs) if r < 0.8 else rng.randint(0, 4) / 8.0)
+    tol = 0.0 if r < 0.55 else (float(rng.choice(decs)) if r < 0.8 else rng.randint(0, 4) / 8.0)
     add = None if rng.random() < 0.6 else [rng.randint(2 * ths[0] - 4, 2 * ths[-1] + 4) / 4.0 for _ in range(rng.randint(1, 3))]
     ffm = rng.choice(FILLS)
     im = rng.choice(["exact", "trapz"])
@@ -368,21 +482,63 @@ def check_adjust(ctx):
             "fcst_fill_method": ffm, "integration_method": im}
     impl = core.call_impl(P.adjust_fcst_for_crps, da, TD, obs, decreasing_tolerance=tol, additional_thresholds=add, fcst_fill_method=ffm, integration_method=im)
     cases = []
+    obs_of = []
     for lb, l in zip(labs, lines):
         sel = {d: v for d, v in zip(dims, lb) if d in obs.dims}
         o = float(obs.sel(sel).values) if sel else float(obs.values)
+        obs_of.append(o)
         cases.append(enc_list([enc_nums(l), enc_num(o)]))
     m = ctx.model("c17_adjust", enc_list([enc_nums([t / 2.0 for t in ths]), enc_list(cases), enc_nums(add or []), enc_str(ffm), enc_str(im), enc_num(tol)]))
-    ctx.case(desc, nontrivial=impl[0] == "ok" and any(d > tol for d in decs))
-    ctx.count("adjust:" + ("some_decreasing" if any(d > tol for d in decs) else "none_decreasing"))
-    if core.is_err(m) or impl[0] == "err":
-        if not (core.is_err(m) and impl[0] == "err" and impl[1] == m):
-            ctx.tie_fail("adjust_fcst_for_crps raises/returns differently from the model", desc, str(impl[1])[:200], str(m)[:200])
+    flagged = [d > Fraction(tol) for d in decs]
+    ctx.case(desc, nontrivial=impl[0] == "ok" and any(flagged))
+    ctx.count("adjust:" + ("some_decreasing" if any(flagged) else "none_decreasing"))
+    if impl[0] == "err":
+        if not (core.is_err(m) and impl[1] == m):
+            ctx.tie_fail("adjust_fcst_for_crps raises where the model returns a value", desc, str(impl[1])[:200], str(m)[:200])
         return
-    bad = cmp_lines(impl[1], sizes, m)
-    if bad:
-        ctx.tie_fail("adjust_fcst_for_crps differs from the model", {**desc, "case": bad[0]}, bad[1], bad[2])
-        return
+    _, _, got = lines_of(impl[1], sizes)
+    # ---- predicates between public calls: which candidate must have been returned
+    if not any(flagged):
+        for lb, pl, g in zip(labs, plines, got):
+            if not same_line(g, [F(v) for v in pl]):
+                ctx.violation("adjust_fcst_for_crps changes a forecast that does not decrease beyond the tolerance (only NaN propagation is allowed)",
+                              {**desc, "case": dict(zip(dims, lb))}, pl, g)
+                break
+    else:
+        pda = core.call_impl(C().propagate_nan, da, TD)
+        env = core.call_impl(C().cdf_envelope, pda[1], TD) if pda[0] == "ok" else ("err", None)
+        sc = crps_of(env[1], obs, sizes, add, ffm, im, extra=["cdf_type"]) if env[0] == "ok" else ("err", None)
+        if sc[0] == "ok":
+            order = ["original", "upper", "lower"]
+            for lb, pl, g, fl in zip(labs, plines, got, flagged):
+                sel = dict(zip(dims, lb))
+                if not fl:
+                    want, which = pl, "original (not flagged)"
+                else:
+                    tots = [float(sc[1]["total"].sel({**sel, "cdf_type": n}).values) for n in order]
+                    fin = [(t, k) for k, t in enumerate(tots) if not np.isnan(t)]
+                    if not fin:
+                        want, which = pl, "original (all scores NaN)"
+                    else:
+                        best = max(t for t, _ in fin)
+                        ties = [k for t, k in fin if abs(t - best) <= 1e-12]
+                        cand = [lines_of(env[1].sel(cdf_type=n).sel(sel) if sel else env[1].sel(cdf_type=n), {})[2][0] for n in order]
+                        if not any(same_line(g, [F(v) for v in cand[k]]) for k in ties) or (len(ties) == 1 and not same_line(g, [F(v) for v in cand[ties[0]]])):
+                            ctx.violation("adjust_fcst_for_crps does not return the candidate (original, upper, lower) with the largest CRPS for a flagged case",
+                                          {**desc, "case": sel, "crps": dict(zip(order, tots))}, order[ties[0]], g)
+                            break
+                        # first maximal candidate wins a tie (exact ties only)
+                        exact_ties = [k for t, k in fin if t == best]
+                        if len(exact_ties) > 1 and not same_line(g, [F(v) for v in cand[exact_ties[0]]]) and \
+                                not any(same_line(cand[exact_ties[0]], [F(v) for v in cand[k]]) for k in exact_ties[1:]):
+                            ctx.violation("adjust_fcst_for_crps breaks a CRPS tie in the wrong order (documented: original, then upper, then lower)",
+                                          {**desc, "case": sel, "crps": dict(zip(order, tots))}, order[exact_ties[0]], g)
+                            break
+                        ctx.count("adjust:chosen_" + order[ties[0]])
+                        continue
+                if not same_line(g, [F(v) for v in want]):
+                    ctx.violation("adjust_fcst_for_crps changes a case that must stay as it is: " + which, {**desc, "case": sel}, want, g)
+                    break
     # never flatters: CRPS(adjusted) >= CRPS(original) per case, same options
     a = crps_of(impl[1], obs, sizes, add, ffm, im)
     b = crps_of(da, obs, sizes, add, ffm, im)
@@ -394,16 +550,40 @@ def check_adjust(ctx):
             y = float(b[1]["total"].sel(sel).values) if sel else float(b[1]["total"].values)
             if not (np.isnan(y) or x >= y - 1e-12):
                 ctx.violation("adjust_fcst_for_crps lowers the CRPS of a forecast case", {**desc, "case": sel}, f">= {y}", x)
-                return
-    # unchanged when nothing decreases beyond tolerance
-    if not any(d > tol for d in decs):
-        pn = core.call_impl(C().propagate_nan, da, TD)
-        if pn[0] == "ok" and cmp_lines(impl[1], sizes, [[enc_num(v) for v in l] for l in lines_of(pn[1], sizes)[2]]):
-            ctx.violation("adjust_fcst_for_crps changes a forecast that does not decrease beyond the tolerance", desc, "unchanged", gens.da_repr(impl[1]))
+                break
+    # ---- tie
+    if core.is_err(m):
+        ctx.tie_fail("adjust_fcst_for_crps returns a value where the model raises", desc, "value", m)
+        return
+    bad = cmp_lines(impl[1], sizes, m)
+    if bad:
+        ctx.tie_fail("adjust_fcst_for_crps differs from the model", {**desc, "case": bad[0]}, bad[1], bad[2])
+
+
+def sweep(ctx):
+    """every line of length 1-4 over {NaN, 0, 1/2, 1}: envelope; fill (4 methods x min_nonnan 1-3); decreasing (NaN-free and all-NaN lines)"""
+    vals = [NAN, 0.0, 0.5, 1.0]
+    for n in (1, 2, 3, 4):
+        lines = list(itertools.product(vals, repeat=n))
+        ths = list(range(0, 2 * n, 2))
+        da = xr.DataArray(np.array(lines, dtype=float), dims=["a", TD], coords={"a": list(range(len(lines))), TD: [t / 2.0 for t in ths]})
+        sizes = {"a": len(lines)}
+        check_envelope(ctx, da, sizes)
+        for method in FILLS:
+            for mn in (1, 2, 3):
+                if method == "linear" and mn < 2:
+                    continue
+                check_fill(ctx, da, sizes, ths, method, mn)
+        clean = [l for l in lines if all(np.isnan(v) for v in l) or not any(np.isnan(v) for v in l)]
+        dc = xr.DataArray(np.array(clean, dtype=float), dims=["a", TD], coords={"a": list(range(len(clean))), TD: [t / 2.0 for t in ths]})
+        for tol in (0.0, 0.5, 1.0):
+            check_decreasing(ctx, dc, {"a": len(clean)}, ths, tol)
+        ctx.count("sweep_lines", len(lines))
 
 
 def run(ctx):
-    n = ctx.n(90, 1500)
+    sweep(ctx)
+    n = ctx.n(70, 1500)
     for i in range(n):
         if not ctx.time_left():
             ctx.note(f"time budget reached after {i} rounds")
@@ -415,5 +595,4 @@ def run(ctx):
         check_small_tools(ctx)
         check_adjust(ctx)
         check_adjust(ctx)
-    for k, s in enumerate(ctx.samples):
-        pass
+    ctx.sample({"note": "see generator_distribution; failing cases are written to the replay file"})
